@@ -1,0 +1,25 @@
+//go:build verif
+
+package pcache
+
+import "sync/atomic"
+
+// verifTap is a test-only observation / delay point used by the verification
+// harness. It is only compiled with the "verif" build tag.
+var verifTap atomic.Pointer[func(point string)]
+
+// SetVerifTap installs (or, with nil, removes) the function called at the
+// named points of the cache's write paths.
+func SetVerifTap(f func(point string)) {
+	if f == nil {
+		verifTap.Store(nil)
+		return
+	}
+	verifTap.Store(&f)
+}
+
+func verifPoint(point string) {
+	if f := verifTap.Load(); f != nil {
+		(*f)(point)
+	}
+}
